@@ -285,7 +285,8 @@ PROPS["C14"] = dict(
                 3: "framed-input-accepted-with-trailing-bytes-or-inner-length-disagreement", 4: "panic",
                 5: "accepted-although-header-length-disagrees-with-size", 6: "accepted-although-fragment-fields-not-whole-message",
                 7: "emitted-handshake-message-rejected", 8: "never-emitted-form-without-ignored-parts-reencodes-differently",
-                9: "dtlcp-clientHello-decoded-groups-or-signature-algorithms-differ-from-wire-values"},
+                9: "dtlcp-clientHello-decoded-groups-or-signature-algorithms-differ-from-wire-values",
+                10: "renumbered-message-encodes-another-message-seq-or-other-bytes"},
     assumptions=["unmarshal is called on one whole handshake message as readHandshake frames it (length field = size - header; dtlcp: fragment_offset 0, fragment_length = length); "
                  "what the decoders do outside that framing is modelled and reported (K7, K8), not assumed away",
                  "messages are shorter than 4 GB (the Go code compares uint32 truncations of len(data))"],
